@@ -80,6 +80,14 @@ pub fn vocab_item(item: &Value) -> Value {
             let t = format!("!{}", w);
             lex.insert(t.clone(), json!(lex_kind(&t)));
         }
+        // candidate spellings (morpheme combinations, deprecated names): only the ones the lexer takes as an operator are reported
+        for w in jarr(&item, "bang_candidates") {
+            let t = format!("!{}", w.as_str().unwrap_or(""));
+            let k = lex_kind(&t);
+            if k.starts_with('X') && !k.contains('+') {
+                lex.insert(t, json!(k));
+            }
+        }
         let mut parses = serde_json::Map::new();
         if let Some(o) = item.get("statements").and_then(|s| s.as_object()) {
             for (k, t) in o {
